@@ -875,7 +875,7 @@ impl Engine for EngineE {
         out
     }
     fn rule(&self) -> String {
-        "seeded process runs of the real binary: programs of 3-25 items (display of values bracketed by unique marker strings, definitions, calls, imports of sibling libraries that print at load time) with in two thirds of the runs exactly one failing form (8 run-time fault shapes incl. inside a procedure after output and in tail position, 6 syntax errors, failing/late import) at a random index; file-level faults in a sixth of the runs (missing, directory, empty, invalid UTF-8 at byte k, truncated at byte k); working directory in {program dir, parent, unrelated dir with decoy libraries, /} x path spelling {relative, ./, absolute, through ..}; LF or CRLF; with/without final newline; one form per line or all on one line; hash seed through LD_PRELOAD. distinct = item kinds x layout x world; non-trivial = the run printed at least one marker or was expected to fail".into()
+        "seeded process runs of the real binary (further variations, see DESIGN.md 4.7: working directory removed before start, program through a named pipe, interpreter line first, file names with spaces / other scripts, multi-byte filler, bare value expressions, long displayed literals, bulk output): programs of 3-25 items (display of values bracketed by unique marker strings, definitions, calls, imports of sibling libraries that print at load time) with in two thirds of the runs exactly one failing form (8 run-time fault shapes incl. inside a procedure after output and in tail position, 6 syntax errors, failing/late import) at a random index; file-level faults in a sixth of the runs (missing, directory, empty, invalid UTF-8 at byte k, truncated at byte k); working directory in {program dir, parent, unrelated dir with decoy libraries, /} x path spelling {relative, ./, absolute, through ..}; LF or CRLF; with/without final newline; one form per line or all on one line; hash seed through LD_PRELOAD. distinct = item kinds x layout x world; non-trivial = the run printed at least one marker or was expected to fail".into()
     }
     fn assumptions(&self) -> Vec<String> {
         vec![
